@@ -28,6 +28,7 @@ func (o Obligation) Key() string { return o.Rule + " " + o.Construct }
 
 // Ctx is the state of one property check.
 type Ctx struct {
+	starFields       [][2]ssa.Value // %*d fields met by textWidth: (width, number)
 	helpChecked      map[*ssa.Function]bool
 	onceKeys         map[string]bool
 	pathFallbackOpen bool
